@@ -55,6 +55,7 @@ type cbP struct {
 	UserName, Email, FullName, GivenName, Surname, UserID *string
 	Custom []world.Custom
 	NoStd  bool // all standard attributes except username unset
+	Dirty  string // "" | failed-writes (dirtyWrites)
 }
 
 func strp(s string) *string { return &s }
@@ -110,6 +111,12 @@ func cbBuild(p cbP) (*world.World, *cbTruth) {
 	}
 	if _, err := w.Store.RegisterSP("app-a", a.XML()); err != nil {
 		panic(fmt.Sprintf("cbBuild: register: %v", err))
+	}
+	if p.Dirty != "" {
+		if _, err := w.Store.RegisterSP("app-b", msg.SPB().XML()); err != nil {
+			panic(err)
+		}
+		dirtyWrites(w)
 	}
 	if p.Entity != nil && !xmlLegal(*p.Entity) {
 		// not expressible as SP metadata: only the storage's application -> entity mapping carries it
